@@ -135,34 +135,39 @@ bool hazard_eras<Traits>::guard_ptr<T, MarkedPtr>::acquire_if_equal(const concur
     order = std::memory_order_acquire;
   }
 
-  // (2) - this load operation synchronizes-with any release operation on p.
-  // we have to use acquire here to ensure that the subsequent era_clock.load
-  // sees a value >= p.construction_era
-  auto p1 = p.load(order);
-  if (p1 == nullptr || p1 != expected) {
-    reset();
-    return p1 == expected;
-  }
-
-  const auto era = era_clock.load(std::memory_order_relaxed);
-  if (he != nullptr && he->guards() == 1) {
-    he->set_era(era);
-  } else {
-    // allocate the new hazard era before giving up the shared one - alloc_hazard_era can throw,
-    // and in that case this guard must still be counted by the hazard era it refers to.
-    auto new_he = local_thread_data().alloc_hazard_era(era);
-    if (he != nullptr) {
-      he->release_guard();
+  era_t prev_era = he == nullptr ? 0 : he->get_era();
+  for (;;) {
+    // (2) - this load operation synchronizes-with any release operation on p.
+    // we have to use acquire here to ensure that the subsequent era_clock.load
+    // sees a value >= p.construction_era
+    auto p1 = p.load(order);
+    if (p1 == nullptr || p1 != expected) {
+      reset();
+      return p1 == expected;
     }
-    he = new_he;
-  }
 
-  this->ptr = p.load(std::memory_order_relaxed);
-  if (this->ptr != p1) {
-    reset();
-    return false;
+    const auto era = era_clock.load(std::memory_order_relaxed);
+    if (era == prev_era) {
+      // the published era has not changed since before p was loaded, so it lies within the
+      // lifetime of the object p1 refers to. Comparing only the pointers is not sufficient: the
+      // node could have been reclaimed and its memory reused for a node from a later era (ABA).
+      this->ptr = p1;
+      return true;
+    }
+
+    if (he != nullptr && he->guards() == 1) {
+      he->set_era(era);
+    } else {
+      // allocate the new hazard era before giving up the shared one - alloc_hazard_era can throw,
+      // and in that case this guard must still be counted by the hazard era it refers to.
+      auto new_he = local_thread_data().alloc_hazard_era(era);
+      if (he != nullptr) {
+        he->release_guard();
+      }
+      he = new_he;
+    }
+    prev_era = era;
   }
-  return true;
 }
 
 template <class Traits>
